@@ -1,2 +1,7 @@
+pub mod c07;
+pub mod c08;
+pub mod c09;
+pub mod c10;
 pub mod c19;
+pub mod mu;
 pub mod nat;
